@@ -88,7 +88,8 @@ class C09(Prop):
         cfg["steps"] = 10 ** 6
         cfg["child_props"] = True
         cfg["extra_unreachable"] = False if rng.random() < 0.5 else cfg["extra_unreachable"]
-        cfg["flat_counter_start"] = rng.choice([0, 0, 3])
+        cfg["flat_counter_start"] = rng.choice([0, 0, 3, 10, 30, 61, 3843])
+        cfg["ident_rate"] = rng.choice([0.0, 0.0, 0.5, 1.0])   # elements that carry an EDIF identifier (flatten rewrites it)
         cfg["late_pins"] = rng.choice([0, 0, 0.4])
         cfg["slash_rate"] = rng.choice([0, 0, 0.3])
         # the naming policy the design lives under, and names near the EDIF length limit: the slash-joined paths
